@@ -32,7 +32,7 @@ NewKind(e) ==
   ELSE IF e.op = "close" THEN [kind EXCEPT ![e.h] = "closed"]
   ELSE kind
 NewOpenedFor(e) ==
-  IF e.op = "open" THEN [openedFor EXCEPT ![e.h] = Announces(info)] ELSE openedFor
+  IF e.op = "open" THEN [openedFor EXCEPT ![e.h] = Announces(info) \/ e.so = "true"] ELSE openedFor
 NewPend(e) ==
   IF e.op = "store" /\ e.res = "ok" /\ kind[e.h] = "sharded" THEN [pend EXCEPT ![e.h] = e.v]
   ELSE IF e.op = "close" THEN [pend EXCEPT ![e.h] = 0]
